@@ -608,6 +608,16 @@ pub fn lagrange<C: Suite>(xs: &[Sc<C>], xi: &Sc<C>, x: &Sc<C>) -> Option<Sc<C>> 
     Some(num * inv)
 }
 
+/// The numeric value of an identifier as big-endian bytes, taken from the suite's own scalar encoding (its byte order is read off
+/// the encoding of 1): an order of identifiers that does NOT go through `Identifier::cmp` (hold-out seed C04_1_w3).
+pub fn id_numeric_be<C: Suite>(id: &Id<C>) -> Result<Vec<u8>, Stop> {
+    let mut b = scalar_bytes::<C>(&id_scalar::<C>(id)?);
+    if scalar_bytes::<C>(&one::<C>()).first() == Some(&1) {
+        b.reverse();
+    }
+    Ok(b)
+}
+
 pub fn id_scalar<C: Suite>(id: &Id<C>) -> Result<Sc<C>, Stop> {
     match scalar_from_bytes::<C>(&id.serialize()) {
         Some(x) => Ok(x),
